@@ -499,3 +499,6 @@ Proof.
   - destruct (t <=? horizon); [eapply IH; exact H|]. inversion H; subst. exact Hs.
   - inversion H; subst. exact Hs.
 Qed.
+
+Lemma chain_inv_all ss : forall u sc, chain_inv u ss sc -> Forall stub_inv ss.
+Proof. induction ss as [|s ss IH]; intros u sc H; [constructor|]. cbn [chain_inv] in H. destruct H as (_ & Hs & Hr). constructor; [exact Hs|eapply IH; exact Hr]. Qed.
